@@ -60,10 +60,9 @@ func c02Run(c *fw.Case, env *fw.Env) *fw.Obs {
 	}
 	rng := c.Rand()
 	t := p.T.build()
-	// the logical table is what the CSV says (CR LF inside a cell reads back as LF)
-	if cols, rows, err := gen.ParseCSV(gen.ToCSV(t, 0), 0); err == nil {
-		t = &gen.Table{Cols: cols, Rows: rows}
-	}
+	// the logical table is what the CSV says (CR LF inside a cell reads back as LF), as a fixed point
+	// because every variant is written out and read again
+	t = gen.Normalize(t)
 	if gen.Model(t.Rows, p.T.PK, len(t.Cols)).Dups > 0 {
 		o.Note = "keys collide after CSV normalisation; skipped"
 		o.Ev("skipped_nonunique", 1)
@@ -225,10 +224,7 @@ func c02Run(c *fw.Case, env *fw.Env) *fw.Obs {
 }
 
 func c02CLI(c *fw.Case, env *fw.Env, o *fw.Obs, p *c02Params) *fw.Obs {
-	t := p.T.build()
-	if cols, rows, err := gen.ParseCSV(gen.ToCSV(t, 0), 0); err == nil {
-		t = &gen.Table{Cols: cols, Rows: rows}
-	}
+	t := gen.Normalize(p.T.build())
 	if len(t.Cols) < 2 || gen.Model(t.Rows, p.T.PK, len(t.Cols)).Dups > 0 {
 		// one-column CSVs lose blank-line rows; keys colliding after CSV normalisation are not "the same set of rows"
 		t = (&tblSpec{Rows: 10 + int(c.Seed%300), NCols: 2, PK: []int{0}, Unique: true, TableSeed: c.Seed}).build()
